@@ -22,6 +22,11 @@ Streams
      enum.values) between two validations + a cache reset (replace request / fresh Schema over the same objects): the
      second verdict is that of the CURRENT description, undo -> valid again. Interface fields there take enum /
      input-object / custom-scalar typed arguments. Verdicts of kept schema objects are repeated at the end (ctx.later).
+  I  2-4 elements appended to ONE member list (same field / type / union / enum / directive) from a pool of two names x
+     {well-formed, ill-formed} x {right, wrong position}: several violations on the same element and name, in every order
+On EVERY schema of every stream: (i) the report contains every violation instance of the dump (`spec_rules`, the Python
+transcription of Spec `Violation`, one clause per rule); (ii) the public option `enable_resolver_validation=True` reports
+what the default call reports, `=False` exactly its non-resolver rules (model asked with the flag as well).
 Every schema sent to the model is the DUMP OF THE LIVE OBJECT (`dump_schema(..., include_builtin, resolvers)`).
 """
 import copy
@@ -193,12 +198,16 @@ def attribute(msg):
     return hits[0]
 
 
-def real_validate(schema, resolver_validation=True):
-    """(verdict, [(rule, groups)]) of `validate_schema`; anything but SchemaValidationError = internal."""
+def real_validate(schema, resolver_validation=None):
+    """(verdict, [(rule, groups)]) of `validate_schema` (None: the default call, else the public option
+    `enable_resolver_validation` given explicitly); anything but SchemaValidationError = internal."""
     from py_gql.schema.validation import validate_schema
     from py_gql.exc import SchemaValidationError
     try:
-        validate_schema(schema, enable_resolver_validation=resolver_validation)
+        if resolver_validation is None:
+            validate_schema(schema)
+        else:
+            validate_schema(schema, enable_resolver_validation=resolver_validation)
         return "valid", []
     except SchemaValidationError as e:
         return "invalid", [attribute(str(x)) for x in e.errors]
@@ -293,6 +302,181 @@ def wf(t):
         return False
     return wf(t[1])
 
+
+
+# ---------------------------------------------------------------------------------------------
+# SPECIFICATION SIDE: the violation instances of a description (Spec/SchemaValidSpec.lean `Violation`,
+# one clause per rule), written against the type-system rules - not against validation.py. Input: the
+# dump of the live schema. Output: multiset of rule ids that must be reported (all together).
+# ---------------------------------------------------------------------------------------------
+
+RESOLVER_RULES = {"resMissingParam", "resPosOnly", "resNeedsDefault", "resPositional", "resExtraRequired"}
+_NAME = None
+
+
+def spec_valid_name(n):
+    import re as _re
+    return bool(_re.fullmatch(r"[_A-Za-z][_0-9A-Za-z]*", n)) and not n.startswith("__")
+
+
+def spec_resolver_rules_data(args, params):
+    """as spec_resolver_rules, on dumped data (args of the dump, params = inspect.signature as data)"""
+    by_name = {}
+    for p in params:
+        by_name.setdefault(p["name"], p)
+    var_kw = any(p["kind"] == "varKw" for p in params)
+    var_pos = any(p["kind"] == "varPos" for p in params)
+    out = Counter()
+    names = []
+    for a in args:
+        n = a.get("python_name") or a["name"]
+        names.append(n)
+        p = by_name.get(n)
+        required = a["type"]["k"] == "nonNull" and not a["has_default"]
+        if p is None:
+            if not var_kw:
+                out["resMissingParam"] += 1
+        elif p["kind"] == "posOnly":
+            out["resPosOnly"] += 1
+        elif not p["has_default"] and not a["has_default"] and not required:
+            out["resNeedsDefault"] += 1
+    rest = [p for p in params if p["name"] not in names and p["kind"] not in ("varKw", "varPos")]
+    if not var_pos and len([p for p in rest if p["kind"] in ("posOnly", "posOrKw")]) < 3:
+        out["resPositional"] += 1
+    out["resExtraRequired"] += sum(1 for p in rest[3:] if not p["has_default"])
+    return +out
+
+
+def spec_rules(d, rv=True):
+    out = Counter()
+    by = {}
+    for t in d["types"]:
+        by.setdefault(t["name"], t)
+
+    def kind(n):
+        return by[n]["kind"] if n in by else None
+
+    def base(ty):
+        return ty["n"] if ty["k"] == "named" else base(ty["t"])
+
+    def is_in(ty):
+        return kind(base(ty)) in ("scalar", "enum", "input")
+
+    def is_out(ty):
+        return kind(base(ty)) in ("scalar", "enum", "object", "interface", "union")
+
+    def sub(a, b):
+        return spec_subtype({"types": d["types"]}, canon_schema.ty_tuple(a), canon_schema.ty_tuple(b))
+
+    def last(xs, n):
+        r = None
+        for x in xs:
+            if x["name"] == n:
+                r = x
+        return r
+
+    def args(xs, dup, notin):
+        pre = []
+        for a in xs:
+            if not spec_valid_name(a["name"]):
+                out["invalidName"] += 1
+            if a["name"] in pre:
+                out[dup] += 1          # a repeated name is reported as such and not examined further
+            elif not is_in(a["type"]):
+                out[notin] += 1
+            pre.append(a["name"])
+
+    def fields(t):
+        if not t["fields"]:
+            out["noFields"] += 1
+        pre = []
+        for f in t["fields"]:
+            if not spec_valid_name(f["name"]):
+                out["invalidName"] += 1
+            if f["name"] in pre:
+                out["dupField"] += 1
+            else:
+                if not is_out(f["type"]):
+                    out["fieldNotOutput"] += 1
+                args(f["args"], "dupArg", "argNotInput")
+                r = f.get("resolver") or (t.get("default_resolver") if t["kind"] == "object" else None) or d.get("default_resolver")
+                if r and rv and not r.get("uninspectable"):
+                    out.update(spec_resolver_rules_data(f["args"], r["params"]))
+            pre.append(f["name"])
+
+    def impl(t, it):
+        for f in it["fields"]:
+            of = last(t["fields"], f["name"])
+            if of is None:
+                out["ifaceFieldMissing"] += 1
+            elif not sub(of["type"], f["type"]):
+                out["ifaceFieldType"] += 1
+            else:
+                for a in f["args"]:
+                    oa = last(of["args"], a["name"])
+                    if oa is None:
+                        out["ifaceArgMissing"] += 1
+                    elif oa["type"] != a["type"]:
+                        out["ifaceArgType"] += 1
+                for a in of["args"]:
+                    if last(f["args"], a["name"]) is None and a["type"]["k"] == "nonNull":
+                        out["extraRequiredArg"] += 1
+
+    if d["query"] is None:
+        out["noQuery"] += 1
+    for key, rule in (("query", "queryNotObject"), ("mutation", "mutationNotObject"), ("subscription", "subscriptionNotObject")):
+        if d[key] is not None and kind(d[key]) != "object":
+            out[rule] += 1
+    for t in d["types"]:
+        if not (t.get("builtin") or spec_valid_name(t["name"])):
+            out["invalidTypeName"] += 1      # the type is not examined further
+            continue
+        k = t["kind"]
+        if k in ("object", "interface"):
+            fields(t)
+        if k == "object":
+            pre = []
+            for i in t["interfaces"]:
+                if kind(i) != "interface":
+                    out["notInterface"] += 1
+                elif i in pre:
+                    out["dupInterface"] += 1
+                else:
+                    impl(t, by[i])
+                pre.append(i)
+        elif k == "union":
+            if not t["members"]:
+                out["unionEmpty"] += 1
+            pre = []
+            for m in t["members"]:
+                if kind(m) != "object":
+                    out["unionMemberNotObject"] += 1
+                elif m in pre:
+                    out["unionDup"] += 1
+                pre.append(m)
+        elif k == "enum":
+            if not t["values"]:
+                out["enumEmpty"] += 1
+            for v in t["values"]:
+                if not spec_valid_name(v["name"]):
+                    out["invalidName"] += 1
+        elif k == "input":
+            if not t["input_fields"]:
+                out["noFields"] += 1
+            pre = []
+            for f in t["input_fields"]:
+                if not spec_valid_name(f["name"]):
+                    out["invalidName"] += 1
+                if f["name"] in pre:
+                    out["dupField"] += 1
+                elif not is_in(f["type"]):
+                    out["inputFieldNotInput"] += 1
+                pre.append(f["name"])
+    for dd in d["directives"]:
+        if not spec_valid_name(dd["name"]):
+            out["invalidName"] += 1
+        args(dd["args"], "dirDupArg", "dirArgNotInput")
+    return +out
 
 # ---------------------------------------------------------------------------------------------
 # base schemas
@@ -853,6 +1037,37 @@ def shrink_desc(builder, desc, labels, cls, guard, budget=300):
     return cur, steps
 
 
+def shrink_pred(builder, desc, pred, budget=250):
+    """Greedy one-step reduction keeping `pred(schema)` (a statement about the real code AND the spec side)."""
+    cur, steps = desc, 0
+    progress = True
+    while progress and budget > 0:
+        progress = False
+        for cand in smaller_descs(cur):
+            budget -= 1
+            if budget <= 0:
+                break
+            s = quiet_build(builder, cand)
+            if s is None:
+                continue
+            try:
+                ok = pred(s)
+            except Exception:  # noqa
+                ok = False
+            if ok:
+                cur, steps, progress = cand, steps + 1, True
+                break
+    return cur, steps
+
+
+def missing_instances(schema, opt=None):
+    """rules of violation instances of the current dump that the real report (default call / with the option) lacks"""
+    v, e = real_validate(schema, resolver_validation=opt)
+    if v.startswith("internal"):
+        return Counter()
+    return spec_rules(dump(schema), opt is not False) - Counter(r for r, _ in e)
+
+
 def shape_of(desc):
     """Minimal structural feature of a shrunk description: kinds present (user types) with member counts."""
     parts = []
@@ -936,8 +1151,11 @@ def sig_of(labels):
 
 
 def check_schema(ctx, batch, schema, labels, how, info, desc=None):
-    """labels: [(injection name, expected rule or None)]. Direct oracle + queue the model comparison."""
+    """labels: [(injection name, expected rule or None)] or None (no labelled expectation: the expectation is the
+    set of violation instances of the dump). Direct oracles + queue the model comparison."""
     ctx.count()
+    no_labels = labels is None
+    labels = labels or []
     verdict, errs = real_validate(schema)
     try:
         dmp = dump(schema)
@@ -956,7 +1174,71 @@ def check_schema(ctx, batch, schema, labels, how, info, desc=None):
               "real": {"verdict": verdict, "errors": canon_errs(errs)}}
     if desc is not None:
         detail["desc"] = desc
-    cls = failure_class(verdict, errs, labels)
+    # --- all violation instances of the CURRENT description are reported together (spec side, Python) -----
+    spec_fail = False
+    builder0 = {"code": build_code, "sdl": build_sdl, "perm": build_code}.get(how)
+
+    def shrunk(pred, tag):
+        """detail of the failure, on a reduced description when the case can be rebuilt"""
+        seen_sigs = ctx.extra.setdefault("_shrunk", set())
+        if desc is None or builder0 is None or tag in seen_sigs:
+            return detail
+        seen_sigs.add(tag)
+        small, steps = shrink_pred(builder0, desc, pred)
+        s2 = quiet_build(builder0, small) if steps else None
+        if s2 is None:
+            return detail
+        v2, e2 = real_validate(s2)
+        return {"how": how, "labels": None, "info": info, "desc": small, "shrunk_steps": steps, "schema": dump(s2),
+                "real": {"verdict": v2, "errors": canon_errs(e2)}}
+    if not verdict.startswith("internal"):
+        want = spec_rules(dmp, True)
+        missing, extra = want - rules, rules - want
+        if missing:
+            spec_fail = True
+            mset = set(missing)
+            dd = shrunk(lambda s2: set(missing_instances(s2)) == mset, ("missing", tuple(sorted(mset))))
+            ctx.fail("violation-instance-not-reported:%s" % "+".join(sorted(missing)),
+                     "a violation instance of the schema has no error of its rule in the report (not all violations reported together)",
+                     dict(dd, missing=sorted(missing.items())))
+        elif extra and not want:
+            spec_fail = True
+            ctx.fail("valid-schema-rejected:%s:spec" % "+".join(sorted(extra)), "a schema without any violation instance is rejected",
+                     dict(detail, expected_rules=[]))
+        elif extra:
+            ctx.fail("corr:spec-extra:%s" % "+".join(sorted(extra)), "errors reported beyond the violation instances of the schema",
+                     dict(detail, expected_rules=sorted(want.items())), kind="correspondence")
+        # --- public option enable_resolver_validation: True = default; False only drops the resolver rules -----
+        for opt in (True, False):
+            vo, eo = real_validate(schema, resolver_validation=opt)
+            ro = Counter(r for r, _ in eo)
+            exp_o = rules if opt else Counter({r: c for r, c in rules.items() if r not in RESOLVER_RULES})
+            lost = exp_o - ro
+            if not lost and not spec_fail:
+                lost = (want if opt else spec_rules(dmp, False)) - ro
+            if vo.startswith("internal") or lost or (ro - exp_o):
+                lset = set(lost)
+
+                def pred(s2, opt=opt, lset=lset):
+                    v1, e1 = real_validate(s2)
+                    r1 = Counter(r for r, _ in e1)
+                    v3, e3 = real_validate(s2, resolver_validation=opt)
+                    r3 = Counter(r for r, _ in e3)
+                    ex = r1 if opt else Counter({r: c for r, c in r1.items() if r not in RESOLVER_RULES})
+                    return set((ex - r3) + missing_instances(s2, opt)) >= lset and bool(lset or (r3 - ex))
+                dd = shrunk(pred, ("option", opt, tuple(sorted(lset)))) if lset else detail
+                ctx.fail("option-enable_resolver_validation=%s:%s" % (opt, ("lost=" + "+".join(sorted(lset))) if lset else ("extra=" + "+".join(sorted(ro - exp_o)) or vo)),
+                         "validate_schema(schema, enable_resolver_validation=%s) does not report the default call's %s" % (opt, "rules" if opt else "non-resolver rules"),
+                         dict(dd, option=opt))
+            elif not opt and ctx.model_ok:
+                def cont_o(ans, ro=ro, dmp=dmp):
+                    mo = Counter(e["rule"] for e in ans.get("errors", []))
+                    if mo != ro:
+                        ctx.fail("corr:validate:option-false", "model (resolver validation off) and validator differ",
+                                 {"schema": dmp, "real": sorted(ro.items()), "model": sorted(mo.items())}, kind="correspondence")
+                if any(r in RESOLVER_RULES for r in rules) or ctx.rng.random() < 0.15:
+                    batch.add({"op": "validate", "schema": dmp, "resolver_validation": False}, cont_o)
+    cls = None if (no_labels or spec_fail) else failure_class(verdict, errs, labels)
     if cls is not None:
         builder = {"code": build_code, "sdl": build_sdl, "perm": build_code}.get(how)
         flabels = labels
@@ -1676,6 +1958,84 @@ def stream_setter_edits(ctx, batch):
                     break
     ctx.extra["setter_edit_cases"] = done
 
+
+# ---- I: several violations on the SAME element list, in every order ------------------------------------
+
+def stream_compound(ctx, batch):
+    """2-4 elements appended to ONE member list (arguments of a field, fields of a type, input fields, union
+    members, implemented interfaces, enum values, directive arguments), drawn from a pool of two names x
+    {well-formed, ill-formed} x {right position, wrong position}: duplicates, wrong-position types and bad names meet on
+    the same element / the same name in both orders. No labels: the expectation is the set of violation instances
+    of the dump (`spec_rules`); the model's multiset is compared as well."""
+    rng = ctx.rng
+    done = 0
+    for i in range(ctx.n(70, 600)):
+        if ctx.time_left() < 12:
+            break
+        d = add_arg_cluster(base_schema(rng, 0, cluster=True)) if i % 3 == 0 else add_cluster(gs.gen_schema(rng, size=0, with_descriptions=False))
+        if rng.random() < 0.3:
+            add_resolvers(rng, d, p=0.3)
+        objs = [t for t in d["types"] if t["kind"] == "object"]
+        comps = [t for t in d["types"] if t["kind"] in ("object", "interface")]
+        inputs = [t for t in d["types"] if t["kind"] == "input"]
+        unions = [t for t in d["types"] if t["kind"] == "union"]
+        enums = [t for t in d["types"] if t["kind"] == "enum"]
+        ifaces = [t["name"] for t in d["types"] if t["kind"] == "interface"]
+        in_names = ["Int", inputs[0]["name"] if inputs else "String", enums[0]["name"] if enums else "ID"]
+        out_only = [objs[0]["name"], unions[0]["name"] if unions else objs[-1]["name"]] + ifaces[:1]
+        names = ["zq", "zr", "__z", "z-q"]
+        where = rng.choice(["args", "args", "fields", "fields", "input", "union", "interfaces", "enum", "dirargs"])
+        n = rng.randint(2, 4)
+
+        def nm():
+            return rng.choice(names[:2] if rng.random() < 0.75 else names)
+        if where == "args":
+            t = rng.choice(comps)
+            f = rng.choice(t["fields"])
+            for _ in range(n):
+                _add_arg(f, _a(nm(), _wrap(rng, rng.choice(in_names if rng.random() < 0.55 else out_only)), default=None))
+        elif where == "fields":
+            t = rng.choice(comps)
+            for _ in range(n):
+                fld = _f(nm(), _wrap(rng, rng.choice(out_only + ["Int"] if rng.random() < 0.6 else [inputs[0]["name"]] if inputs else ["Int"])))
+                if rng.random() < 0.4:
+                    for _ in range(rng.randint(1, 3)):
+                        fld["args"].append(_a(nm(), _wrap(rng, rng.choice(in_names if rng.random() < 0.55 else out_only))))
+                if rng.random() < 0.25:
+                    fld["resolver"] = rng.choice(["root, ctx", "root, ctx, info, **kw", "root, ctx, info"])
+                t["fields"].insert(rng.randint(0, len(t["fields"])), fld)
+        elif where == "input" and inputs:
+            t = rng.choice(inputs)
+            for _ in range(n):
+                t["fields"].insert(rng.randint(0, len(t["fields"])), _a(nm(), _wrap(rng, rng.choice(in_names if rng.random() < 0.55 else out_only))))
+        elif where == "union" and unions:
+            t = rng.choice(unions)
+            pool = [o["name"] for o in objs[:2]] + [enums[0]["name"] if enums else "Int", "Int"] + ifaces[:1]
+            for _ in range(n):
+                t["members"].insert(rng.randint(0, len(t["members"])), rng.choice(pool))
+        elif where == "interfaces":
+            t = rng.choice(objs)
+            pool = ifaces + [objs[0]["name"], enums[0]["name"] if enums else "Int"]
+            t["interfaces"] = list(t.get("interfaces") or [])
+            for _ in range(n):
+                t["interfaces"].insert(rng.randint(0, len(t["interfaces"])), rng.choice(pool))
+        elif where == "enum" and enums:
+            t = rng.choice(enums)
+            for j in range(n):
+                t["values"].append({"name": rng.choice(["__v%d" % j, "v-%d" % j, "W%d" % j]), "deprecated": None, "desc": None})
+        else:
+            dd = {"name": rng.choice(["zd", "__zd"]), "locations": ["FIELD"], "args": [], "desc": None}
+            for _ in range(n):
+                dd["args"].append(_a(nm(), _wrap(rng, rng.choice(in_names if rng.random() < 0.55 else out_only))))
+            d["directives"].append(dd)
+        s = try_build(ctx, build_code, d)
+        if s is None:
+            continue
+        done += 1
+        ctx.stat("compound:" + where)
+        check_schema(ctx, batch, s, None, "code", {"stream": "compound", "where": where}, desc=d)
+    ctx.extra["compound_cases"] = done
+
 # ---- E: cache histories -------------------------------------------------------------------------
 
 def gen_history(rng, desc, length):
@@ -1956,6 +2316,7 @@ def run(ctx):
     corpus_cases(ctx, batch)
     stream_subtype_and_names(ctx, batch)
     stream_shared_resolvers(ctx, batch)
+    stream_compound(ctx, batch)
     stream_derived(ctx, batch)
     stream_setter_edits(ctx, batch)
     stream_every_position(ctx, batch)
@@ -2039,7 +2400,7 @@ def replay(ctx, data):
             return verdict_key(*real_validate(src)) == src_key
         v, e = real_validate(der)
         if how.startswith("derived:"):
-            return failure_class(v, e, [tuple(l) for l in inp.get("labels", [])]) is None
+            return failure_class(v, e, [tuple(l) for l in (inp.get("labels") or [])]) is None
         if w == "extend":
             from py_gql import build_schema
             return verdict_key(v, e) == verdict_key(*real_validate(build_schema(gs.to_sdl(desc, descriptions=False) + EXTENSION_SDL)))
@@ -2087,7 +2448,7 @@ def replay(ctx, data):
         va = real_validate(b(desc, inp["order_a"]))[0]
         vb = real_validate(b(desc, inp["order_b"]))[0]
         return va == vb
-    labels = [tuple(l) for l in inp.get("labels", [])]
+    labels = [tuple(l) for l in (inp.get("labels") or [])]
     if how.startswith("corpus"):
         from py_gql import build_schema
         from py_gql.exc import SchemaValidationError
@@ -2106,6 +2467,18 @@ def replay(ctx, data):
     expected = Counter(r for _, r in labels if r)
     if verdict.startswith("internal"):
         return False
+    dmp = dump(s)
+    want = spec_rules(dmp, True)
+    if (want - rules) or (not want and rules):
+        return False
+    for opt in (True, False):
+        vo, eo = real_validate(s, resolver_validation=opt)
+        ro = Counter(r for r, _ in eo)
+        exp_o = rules if opt else Counter({r: c for r, c in rules.items() if r not in RESOLVER_RULES})
+        if vo.startswith("internal") or ro != exp_o or ((want if opt else spec_rules(dmp, False)) - ro):
+            return False
+    if inp.get("labels") is None or (inp.get("info") or {}).get("stream") == "compound":
+        return True
     if not expected:
         return verdict == "valid"
     return verdict == "invalid" and not (expected - rules)
